@@ -58,6 +58,9 @@ type Verifier struct {
 	localNames       map[*Object]string
 	writeLog         map[*Object]bool
 	ringUsed         map[string]bool
+	globals          map[*ssa.Global]*Object
+	globalInit       map[*ssa.Global]Value
+	methodCache      map[*ssa.Package][]*ssa.Function
 	ringFacts        map[string]bool
 	usedLemmas       map[string]bool
 
@@ -75,7 +78,7 @@ type allowedLoc struct {
 func NewVerifier() *Verifier {
 	return &Verifier{spkgs: map[string]*ssa.Package{}, params: map[string]*FieldParams{}, cfgCache: map[*ssa.Function]*cfgInfo{},
 		contracts: map[string]*Contract{}, usedContracts: map[string]bool{}, assumptions: map[string]bool{}, maxVisits: 5000,
-		hasDefers: map[*ssa.Function]bool{}, specConsts: map[string]*big.Int{}, ringUsed: map[string]bool{}, ringFacts: map[string]bool{}, usedLemmas: map[string]bool{}}
+		hasDefers: map[*ssa.Function]bool{}, specConsts: map[string]*big.Int{}, ringUsed: map[string]bool{}, ringFacts: map[string]bool{}, usedLemmas: map[string]bool{}, methodCache: map[*ssa.Package][]*ssa.Function{}}
 }
 
 func (v *Verifier) assume(s string) {
@@ -249,7 +252,160 @@ func (v *Verifier) globalPtr(st *State, g *ssa.Global) Value {
 	return nil
 }
 
-func (v *Verifier) globalObj(st *State, g *ssa.Global) (*Object, bool) { return nil, false }
+// globalObj models a package-level variable whose value is fixed by its initialiser: the package init
+// function stores only constants into it and no other function of the package takes its address for writing.
+func (v *Verifier) globalObj(st *State, g *ssa.Global) (*Object, bool) {
+	if o, ok := v.globals[g]; ok {
+		if o == nil {
+			return nil, false
+		}
+		if _, live := st.mem[o]; !live {
+			st.mem[o] = v.globalInit[g]
+		}
+		return o, true
+	}
+	v.globals[g] = nil
+	t := g.Type().Underlying().(*types.Pointer).Elem()
+	if v.isAbstract(t) {
+		return nil, false
+	}
+	// only arrays/structs of integers
+	val, ok := v.tryZero(t)
+	if !ok {
+		return nil, false
+	}
+	pkg := g.Pkg
+	if pkg == nil {
+		return nil, false
+	}
+	written := false
+	for _, m := range pkg.Members {
+		fn, ok := m.(*ssa.Function)
+		if !ok {
+			continue
+		}
+		fns := []*ssa.Function{fn}
+		fns = append(fns, fn.AnonFuncs...)
+		for _, f := range fns {
+			isInit := f.Name() == "init" && f.Synthetic != ""
+			for _, b := range f.Blocks {
+				for _, ins := range b.Instrs {
+					s, ok := ins.(*ssa.Store)
+					if !ok {
+						continue
+					}
+					base, path, okp := globalPath(s.Addr)
+					if base != g {
+						continue
+					}
+					c, isConst := s.Val.(*ssa.Const)
+					if !isInit || !okp || !isConst {
+						written = true
+						continue
+					}
+					val = v.setPath(val, path, v.constVal(c))
+				}
+			}
+		}
+	}
+	// methods may also write: scan all functions of the program that mention g is expensive; scan methods of package types
+	for _, f := range v.pkgMethods(pkg) {
+		for _, b := range f.Blocks {
+			for _, ins := range b.Instrs {
+				if s, ok := ins.(*ssa.Store); ok {
+					if base, _, _ := globalPath(s.Addr); base == g {
+						written = true
+					}
+				}
+			}
+		}
+	}
+	if written {
+		return nil, false
+	}
+	o := v.newObject(g.Name(), t, true)
+	o.Global = true
+	v.globals[g] = o
+	v.globalInit[g] = val
+	st.mem[o] = val
+	v.assume("package-level variable " + g.Pkg.Pkg.Name() + "." + g.Name() + " holds its initialiser's constant value (only the package initialiser stores to it: checked syntactically; functions that receive its address are verified against their modifies clauses)")
+	return o, true
+}
+
+func (v *Verifier) tryZero(t types.Type) (val Value, ok bool) {
+	defer func() {
+		if r := recover(); r != nil {
+			if _, isU := r.(unsupported); isU {
+				val, ok = nil, false
+				return
+			}
+			panic(r)
+		}
+	}()
+	switch u := t.Underlying().(type) {
+	case *types.Array:
+		if _, isInt := intKind(u.Elem()); !isInt {
+			if _, isArr := u.Elem().Underlying().(*types.Array); !isArr {
+				return nil, false
+			}
+		}
+	case *types.Basic:
+		if _, isInt := intKind(t); !isInt {
+			return nil, false
+		}
+	default:
+		return nil, false
+	}
+	return v.zeroValue(t), true
+}
+
+func globalPath(a ssa.Value) (*ssa.Global, []PE, bool) {
+	switch x := a.(type) {
+	case *ssa.Global:
+		return x, nil, true
+	case *ssa.IndexAddr:
+		g, p, ok := globalPath(x.X)
+		if g == nil {
+			return nil, nil, false
+		}
+		c, isC := x.Index.(*ssa.Const)
+		if !isC || !ok {
+			return g, nil, false
+		}
+		return g, append(p, PE{I: int(c.Int64())}), true
+	case *ssa.FieldAddr:
+		g, p, ok := globalPath(x.X)
+		if g == nil {
+			return nil, nil, false
+		}
+		return g, append(p, PE{I: x.Field}), ok
+	}
+	return nil, nil, false
+}
+
+func (v *Verifier) pkgMethods(pkg *ssa.Package) []*ssa.Function {
+	if fs, ok := v.methodCache[pkg]; ok {
+		return fs
+	}
+	var out []*ssa.Function
+	for _, m := range pkg.Members {
+		tn, ok := m.(*ssa.Type)
+		if !ok {
+			continue
+		}
+		for _, t := range []types.Type{tn.Type(), types.NewPointer(tn.Type())} {
+			ms := v.prog.MethodSets.MethodSet(t)
+			for i := 0; i < ms.Len(); i++ {
+				if f := v.prog.MethodValue(ms.At(i)); f != nil && f.Synthetic == "" {
+					out = append(out, f)
+					out = append(out, f.AnonFuncs...)
+				}
+			}
+		}
+	}
+	v.methodCache[pkg] = out
+	return out
+}
 
 func (v *Verifier) hasDefersCheck(fn *ssa.Function) {
 	if _, ok := v.hasDefers[fn]; ok {
@@ -347,6 +503,16 @@ func (fr *Frame) applyAnnot(st *State, a *Annot, label string, assert, assumeAft
 		for _, inv := range a.Invariants {
 			st.pc = F.And(st.pc, se.evalBool(inv.E))
 		}
+		if assert {
+			for _, d := range a.Derive {
+				g := se.evalBool(d.E)
+				fr.oblige(st, label+":"+d.Name, g, d.E.Src)
+				st.pc = F.And(st.pc, g)
+			}
+			for _, g := range a.GhostPost {
+				st.ghosts[g.Name] = se.evalTerm(g.E)
+			}
+		}
 	}
 }
 
@@ -357,13 +523,12 @@ func (fr *Frame) havocNamed(st *State, name string, label string) {
 		return
 	}
 	val, ok := st.srcVar[name]
-	if !ok {
-		if p, ok2 := fr.params[name]; ok2 {
+	if p, isParam := fr.params[name]; isParam {
+		if _, isPtr := p.(*PtrV); isPtr {
 			val, ok = p, true
-			st.srcAdr[name] = false
-			if _, isPtr := p.(*PtrV); isPtr {
-				st.srcAdr[name] = true
-			}
+			st.srcAdr[name] = true // havoc of a pointer parameter means havoc of its pointee
+		} else if !ok {
+			val, ok = p, true
 		}
 	}
 	if !ok {
